@@ -48,17 +48,17 @@ class Adapter(EnvAdapter):
                 c("n10a2k2_t2", 10, 15, 4, 2, 2, 2, 3, 6, probe_cap=40),
                 c("n10a2k2_t1", 10, 15, 4, 2, 2, 1, 3, 5, probe_cap=40),
                 c("n36a3k4_t7", 36, 72, 5, 3, 4, 7, 2, 11, probe_every=3, probe_cap=54),
-                c("n50a4k3_t70", 50, 100, 5, 4, 3, 70, 2, 76, probe_every=12, probe_cap=60),
+                c("n50a4k3_t70", 50, 100, 5, 4, 3, 70, 2, 76, probe_every=12, probe_cap=48),
                 c("n50a4k3_t3", 50, 100, 5, 4, 3, 3, 2, 7, probe_every=2, probe_cap=50),
             ]
         out = []
         for (n, e, d, a, k) in ((10, 15, 4, 2, 2), (36, 72, 5, 3, 4), (50, 100, 5, 4, 3), (12, 20, 4, 3, 2),
                                 (20, 36, 4, 2, 5)):
             for t in (1, 2, 3, 7, 70):
-                out.append(c(f"n{n}a{a}k{k}_t{t}", n, e, d, a, k, t, 24 if t >= 7 else 10, min(t, 70) + 6,
-                             probe_cap=min(100, a * n) if n > 10 else 100,
-                             probe_every=1 if (n <= 12 or t < 7) else (3 if t == 7 else 5)))
-        out.append(c("default_n36a3k4_t70", 36, 72, 5, 3, 4, 70, 16, 76, default=True, probe_every=4, probe_cap=108))
+                out.append(c(f"n{n}a{a}k{k}_t{t}", n, e, d, a, k, t, 10 if t == 70 else (12 if t == 7 else 8), t + 6,
+                             probe_cap=100 if n <= 10 else min(60, a * n),
+                             probe_every=7 if t == 70 else (2 if t == 7 else 1)))
+        out.append(c("default_n36a3k4_t70", 36, 72, 5, 3, 4, 70, 8, 76, default=True, probe_every=8, probe_cap=108))
         return out
 
     def make(self, cfg):
@@ -114,10 +114,33 @@ class Adapter(EnvAdapter):
         out.sort(key=lambda va: 0 if types[va[0]] == -1 else 1)      # contested utility nodes first
         return [act for v, act in out]
 
+    def _ghost_actions(self, env, state, rng, base):
+        """joint actions in which one unfinished agent picks an enterable neighbour that a finished agent
+        (whose picks are void) is adjacent to and picks as well"""
+        adj, vis, types, pos, todo = self._view(state)
+        na, n = vis.shape
+        fin = [all(vis[ag, v] for v in todo[ag]) for ag in range(na)]
+        out = []
+        for ag in range(na):
+            if fin[ag]:
+                continue
+            openn = self._open_nodes(state, ag)
+            for v in range(n):
+                ghosts = [j for j in range(na) if fin[j] and adj[pos[j], v]]
+                if adj[pos[ag], v] and openn[v] and ghosts:
+                    act = base().copy()
+                    act[ag] = v
+                    for j in ghosts:
+                        act[j] = v
+                    out.append(act)
+        rng.shuffle(out)
+        return out
+
     # ---- probes ---------------------------------------------------------------------------
     def probe_sample(self, env, state, obs, rng, k):
         """Every node for each agent with the others on their current position (an edge-less choice) in even
-        rounds / on random nodes in odd rounds; then collisions on a common node; then random joint actions."""
+        rounds / on random nodes in odd rounds; then collisions on a common node (also with finished agents, whose
+        picks are void); then random joint actions."""
         na, n = env.num_agents, env.num_nodes
         dt = env.action_spec.dtype
         pos = np.asarray(state.positions)
@@ -132,11 +155,12 @@ class Adapter(EnvAdapter):
                 act = rnd() if others_random else stay()
                 act[ag] = v
                 acts.append(act)
-        if len(acts) > k - 5:                      # keep a uniform sample of them, all agents represented
-            idx = np.sort(rng.choice(len(acts), size=max(1, k - 5), replace=False))
+        if len(acts) > k - 7:                      # keep a uniform sample of them, all agents represented
+            idx = np.sort(rng.choice(len(acts), size=max(1, k - 7), replace=False))
             acts = [acts[j] for j in idx]
         acts.extend(self._collision_actions(env, state, rng, stay)[:3])
         acts.extend(self._collision_actions(env, state, rng, rnd)[:2])
+        acts.extend(self._ghost_actions(env, state, rng, stay)[:2])
         while len(acts) < k:
             acts.append(rnd())
         return np.stack(acts[:k]).astype(dt)
